@@ -394,18 +394,19 @@ func account(c *Case, o Outcome, verdict string) {
 				rep.Count("instantiate:" + e.Name + ":" + normalize(w))
 			}
 			for _, cl := range e.Calls {
-				parts := strings.SplitN(cl, ":", 3)
-				if len(parts) >= 2 {
-					rep.Count("call:" + strings.Fields(parts[1])[0])
+				st := strings.SplitN(cl, " ", 2)[0]
+				if i := strings.IndexAny(st, ":,"); i > 0 {
+					st = st[:i]
 				}
+				rep.Count("call:" + st)
 			}
 		}
 		if len(r.Eng) == 2 && r.Eng[0].Inst == "ok" && r.Eng[1].Inst == "ok" {
 			a, b := r.Eng[0].Calls, r.Eng[1].Calls
 			same := len(a) == len(b)
 			for i := 0; same && i < len(a); i++ {
-				if a[i] != b[i] && !strings.Contains(a[i], "timeout") && !strings.Contains(b[i], "timeout") &&
-					!strings.Contains(a[i], "stack-overflow") && !strings.Contains(b[i], "stack-overflow") && a[i] != "budget" && b[i] != "budget" {
+				if a[i] != b[i] && !strings.HasPrefix(a[i], "timeout") && !strings.HasPrefix(b[i], "timeout") &&
+					!strings.HasPrefix(a[i], "trap:stack-overflow") && !strings.HasPrefix(b[i], "trap:stack-overflow") && a[i] != "budget" && b[i] != "budget" {
 					rep.Count("note:engines-differ-on-a-call(not-a-verdict-here,C01)")
 					rep.Note("engines differ on a call of an accepted input (%s %s): %s vs %s", c.Name, c.Feat, a[i], b[i])
 					break
